@@ -275,6 +275,7 @@ def gen_spec(rng, pid):
         clients.append(ops)
     nreq = sum(1 for o in clients for op in o if op[0] in ('rpc', 'rpc_ff'))
     order = list(range(nreq)); rng.shuffle(order)
+    reseed = 4242 if (pid == 'C03' and rng.random() < 0.15) else None
     server = []
     profile = 'default'
     eager = False
@@ -347,6 +348,8 @@ def gen_spec(rng, pid):
         d['base11'] = rng.random() < 0.75
     if pid == 'C04' and wf is not None:
         d['wfail'] = wf
+    if reseed:
+        d['reseed'] = reseed
     return d
 
 SMALL = {
